@@ -46,7 +46,15 @@ CmdVerdict(e) ==
      ELSE IF \E k \in 1..Len(d) : e.weight[k] # G[k].weight THEN "cmd-weight"
      ELSE "ok"
 
-AnyVerdict(e) == IF "kind" \in DOMAIN e /\ e.kind = "cmd" THEN CmdVerdict(e) ELSE Verdict(e)
+(* an event of kind "rec": the head flag and the counts written on ONE record against its own status map *)
+RecVerdict(e) ==
+  LET N(x) == Cardinality({i \in 1..Len(e.st) : e.st[i] = x}) IN
+  IF e.hc # N("h") \/ e.ic # N("i") \/ e.sc # N("s") \/ e.n # Len(e.st) THEN "rec-counts"
+  ELSE IF (e.head = 1) # (N("h") + N("s") > 0) THEN "rec-head"
+  ELSE "ok"
+
+AnyVerdict(e) == IF "kind" \in DOMAIN e /\ e.kind = "cmd" THEN CmdVerdict(e)
+                 ELSE IF "kind" \in DOMAIN e /\ e.kind = "rec" THEN RecVerdict(e) ELSE Verdict(e)
 
 Init == l \in 1..Len(Trace) /\ res = "todo"
 Next == res = "todo" /\ res' = AnyVerdict(Trace[l]) /\ UNCHANGED l
